@@ -251,7 +251,7 @@ func c33(r *core.Run) {
 				"the per-peer total "+f+" is written with that peer's Traffic mutex held", detail)
 		}
 	}
-	r.Floor("C33.Lk1", "writes of the four per-peer totals", total, 10)
+	r.Floor("C33.Lk1", "writes of the four per-peer totals", total, 5)
 	r.Eval(total)
 
 	// Lk2: persist inside the critical section
@@ -338,7 +338,7 @@ func c33(r *core.Run) {
 					"on restore the total is the on-chain value or max(current, source)", "a restored total is assigned without taking the maximum with its current value: a smaller source can lower it")
 			}
 		}
-		r.Floor("C33.P1", "maxBigint restores", n, 6)
+		r.Floor("C33.P1", "maxBigint restores", n, 3)
 		mb := w.Func("pkg/settlement/traffic", "(*Service).maxBigint")
 		okMax := false
 		if mb != nil {
